@@ -58,17 +58,17 @@ unsigned MessageBase::extract_header(const f8String& from, char *len, char *mtyp
 	char tag[MAX_MSGTYPE_FIELD_LEN], val[FIX8_MAX_FLD_LENGTH];
 	unsigned s_offset(0), result;
 
-	if ((result = extract_element(dptr, flen, tag, val)))
+	if ((result = extract_element(dptr, flen, tag, val, sizeof(tag))))
 	{
 		if (*tag != '8')
 			return 0;
 		s_offset += result;
-		if ((result = extract_element(dptr + s_offset, flen - s_offset, tag, len)))
+		if ((result = extract_element(dptr + s_offset, flen - s_offset, tag, len, sizeof(tag), MAX_MSGTYPE_FIELD_LEN)))
 		{
 			if (*tag != '9')
 				return 0;
 			s_offset += result;
-			if ((result = extract_element(dptr + s_offset, flen - s_offset, tag, mtype)))
+			if ((result = extract_element(dptr + s_offset, flen - s_offset, tag, mtype, sizeof(tag), MAX_MSGTYPE_FIELD_LEN)))
 			{
 				if (*tag != '3' || *(tag + 1) != '5')
 					return 0;
